@@ -21,6 +21,7 @@ type scriptReader struct {
 	k     int
 	errAt int // byte offset at which readErr is returned instead of more data (-1: never)
 	rerr  error
+	errWithData bool // the Read that reaches errAt returns its bytes TOGETHER with the error (io.Reader allows n > 0, err != nil)
 	pos   int
 	delay time.Duration
 	log   []int // sizes of the results actually returned
@@ -56,6 +57,10 @@ func (s *scriptReader) Read(p []byte) (int, error) {
 	}
 	copy(p, s.data[s.pos:s.pos+n])
 	s.pos += n
+	if s.errWithData && s.errAt >= 0 && s.pos >= s.errAt {
+		s.log = append(s.log, n)
+		return n, s.rerr
+	}
 	s.log = append(s.log, n)
 	if s.delay > 0 {
 		time.Sleep(s.delay)
@@ -164,6 +169,9 @@ func suiteStream(rn *runner, r *rng, tier string) {
 		}
 		useReuse := cr.chance(1, 2)
 		rd := &scriptReader{data: []byte(text), sizes: sizes, errAt: errAt, rerr: errInjected}
+		if errAt > 0 && cr.chance(1, 2) {
+			rd.errWithData = true
+		}
 		if cr.chance(1, 10) {
 			rd.delay = time.Duration(cr.intn(200)) * time.Microsecond
 		}
@@ -225,7 +233,9 @@ func suiteStream(rn *runner, r *rng, tier string) {
 			}
 		}
 		simdjson.VerifChunkHook = nil
-		if closed && !huge {
+		if closed && !huge && !rd.errWithData {
+			// (a Read that returns bytes together with its error: whether bufio hands those bytes on depends on its buffer
+			// state; the chunker model has the error arrive with no bytes, so only the oracles below apply)
 			// chunker model (Lean: Stream.run, for which the partition theorem is proved) on the reads that happened
 			fin := "eof"
 			if errAt >= 0 {
@@ -240,7 +250,7 @@ func suiteStream(rn *runner, r *rng, tier string) {
 			rn.addPrepared(tc)
 		}
 		rn.rep.Evaluations++
-		op := fmt.Sprintf("stream frag=%d err@=%d reuse=%v %s", mode, errAt, useReuse, hx([]byte(text)))
+		op := fmt.Sprintf("stream frag=%d err@=%d data+err=%v reuse=%v %s", mode, errAt, rd.errWithData, useReuse, hx([]byte(text)))
 		fail := func(impl, other string) {
 			rn.disagree(disagreement{Kind: "spec", Ops: []string{op}, At: 0, Impl: impl, Other: other, Note: "stream"})
 		}
